@@ -407,6 +407,12 @@ def gen_selected(loader, check, replay_on=True):
                         ok = (t_ is p.state["stmt0"] and e_.cls is Emp) if arm == "then" else (e_ is p.state["stmt0"] and t_.cls is Emp)
                     check.ob("conditional_expr#statements-of-an-arm-run-only-if-that-arm-is-selected", inst, pc, bool(ok), replay=rp,
                              detail=f"statement of the arm is now {st!r}")
+                    # the guarded statement replaces the old one EVERYWHERE in the hybrid: its operand list is what the emitters and the
+                    # declaration order (operands before their user) are computed from
+                    eo = h.fields.get("effect_ops") or []
+                    check.ob("conditional_expr#the-guarded-statement-is-also-the-hybrid's-operand (update_stmt)", inst, pc,
+                             bool(eo) and eo[0] is st and not any(x is p.state["stmt0"] for x in eo), detail=f"effect_ops {eo!r}",
+                             replay=("c06.source", lambda mdl, arm=arm: {"case": f"gcc-order-{arm}"}) if replay_on else None)
                 else:
                     # a postfix operator / call in an arm must equally be evaluated only when the arm is selected
                     seq = list(pending(p.state["t"]).values())
@@ -635,6 +641,18 @@ def replay_source(a):
         inc = [l.split("*")[1].split(" ")[0] for l in txt.splitlines() if "SEQN(2, op_ASSIGN_hybrid_tmp" in l][0]
         args = seq[seq.index("(") + 1:].split(", ")
         return args[1].strip() == inc, f"{{ x = n; n++; x = n; }}: the increment {inc} is the first effect of {seq.strip()} - before x = n (C: between the two assignments)"
+    if case.startswith("gcc-order-"):
+        arm = case.rsplit("-", 1)[1]
+        src = "{ int32_t i = 0; RdV = (RsV == RtV) ? ({ i = 5; i; }) : 7; }" if arm == "then" else "{ int32_t i = 0; RdV = (RsV == RtV) ? 7 : ({ i = 5; i; }); }"
+        txt = c.compile_c_stmt(src)
+        lines = [l for l in txt.splitlines() if l.startswith("RzILOp")]
+        names = [l.split("*")[1].split(" ")[0] for l in lines]
+        bad = []
+        for i, l in enumerate(lines):
+            for n in names[i + 1:]:
+                if re.search(r"\b" + re.escape(n) + r"\b", l.split("=", 1)[1]):
+                    bad.append(f"{names[i]} uses {n} before its declaration")
+        return bool(bad), f"{src}: {bad or 'every variable is declared before its use'}"
     if case.startswith("stmt-in-arm-"):
         arm = case.rsplit("-", 1)[1]
         src = "{ int32_t k = 0; if (RsV) { k++; } else { RtV = 1; } RdV = k; }" if arm == "then" else "{ int32_t k = 0; if (RsV) { RtV = 1; } else { k++; } RdV = k; }"
